@@ -28,6 +28,23 @@ const URIS: &[&str] = &[
 ];
 const UNKNOWN_REQUESTS: &[&str] = &["textDocument/hover", "workspace/symbol", "textDocument/completion", "textDocument/definition", "custom/doesNotExist", "$/unknownRequest"];
 const UNKNOWN_NOTIFICATIONS: &[&str] = &["$/setTrace", "textDocument/didClose", "textDocument/didSave", "workspace/didChangeConfiguration", "custom/note", "$/cancelRequest"];
+/// every client-to-server method name of LSP 3.17 that the server neither implements nor needs for
+/// its life cycle (requests and notifications alike): each may arrive WITH an id - then it is a
+/// request and must be answered once, whatever the specification calls the method - or WITHOUT
+/// one - then it is a notification and must never be answered
+const LSP_METHODS: &[&str] = &[
+    "textDocument/willSave", "textDocument/willSaveWaitUntil", "textDocument/didSave", "textDocument/declaration", "textDocument/definition", "textDocument/typeDefinition",
+    "textDocument/implementation", "textDocument/references", "textDocument/prepareCallHierarchy", "callHierarchy/incomingCalls", "callHierarchy/outgoingCalls",
+    "textDocument/prepareTypeHierarchy", "typeHierarchy/supertypes", "typeHierarchy/subtypes", "textDocument/documentHighlight", "textDocument/documentLink", "documentLink/resolve",
+    "textDocument/hover", "textDocument/codeLens", "codeLens/resolve", "textDocument/foldingRange", "textDocument/selectionRange", "textDocument/documentSymbol",
+    "textDocument/semanticTokens/full/delta", "textDocument/semanticTokens/range", "textDocument/inlineValue", "textDocument/inlayHint", "inlayHint/resolve", "textDocument/moniker",
+    "textDocument/completion", "completionItem/resolve", "textDocument/diagnostic", "workspace/diagnostic", "textDocument/signatureHelp", "textDocument/codeAction", "codeAction/resolve",
+    "textDocument/documentColor", "textDocument/colorPresentation", "textDocument/formatting", "textDocument/rangeFormatting", "textDocument/onTypeFormatting", "textDocument/rename",
+    "textDocument/prepareRename", "textDocument/linkedEditingRange", "workspace/symbol", "workspaceSymbol/resolve", "workspace/didChangeConfiguration", "workspace/didChangeWorkspaceFolders",
+    "workspace/willCreateFiles", "workspace/didCreateFiles", "workspace/willRenameFiles", "workspace/didRenameFiles", "workspace/willDeleteFiles", "workspace/didDeleteFiles",
+    "workspace/didChangeWatchedFiles", "workspace/executeCommand", "notebookDocument/didOpen", "notebookDocument/didChange", "notebookDocument/didSave", "notebookDocument/didClose",
+    "window/workDoneProgress/cancel", "$/setTrace", "$/progress", "$/logTrace",
+];
 
 #[derive(Clone, Debug)]
 pub struct Script {
@@ -46,6 +63,8 @@ fn params_for(method: &str, uri: &str) -> Value {
         "$/setTrace" => json!({"value": "off"}),
         "textDocument/didClose" => json!({"textDocument": {"uri": uri}}),
         "textDocument/didSave" => json!({"textDocument": {"uri": uri}}),
+        "textDocument/willSave" | "textDocument/willSaveWaitUntil" => json!({"textDocument": {"uri": uri}, "reason": 1}),
+        m if m.starts_with("textDocument/") => json!({"textDocument": {"uri": uri}, "position": {"line": 0, "character": 0}, "range": {"start": {"line": 0, "character": 0}, "end": {"line": 0, "character": 1}}, "context": {"diagnostics": [], "includeDeclaration": true}, "options": {"tabSize": 2, "insertSpaces": true}, "newName": "n", "ch": ";"}),
         "workspace/didChangeConfiguration" => json!({"settings": {}}),
         "$/cancelRequest" => json!({"id": 4242}),
         _ => json!({}),
@@ -249,7 +268,7 @@ pub fn gen_script(t: &mut Tape, gates: &Gates, max_len: usize) -> Script {
             }
             6 => {
                 if gates.want("REQUEST_FOR_UNIMPLEMENTED_METHOD") {
-                    let m = *t.pick(UNKNOWN_REQUESTS);
+                    let m = if t.ratio(1, 3) { *t.pick(UNKNOWN_REQUESTS) } else { *t.pick(LSP_METHODS) };
                     let id = request_id(t, next_id, "u");
                     next_id += 1;
                     let mut msg = json!({"jsonrpc": "2.0", "id": id, "method": m, "params": params_for(m, uri)});
@@ -263,7 +282,7 @@ pub fn gen_script(t: &mut Tape, gates: &Gates, max_len: usize) -> Script {
                 }
             }
             7 => {
-                let m = *t.pick(UNKNOWN_NOTIFICATIONS);
+                let m = if t.ratio(1, 2) { *t.pick(UNKNOWN_NOTIFICATIONS) } else { *t.pick(LSP_METHODS) };
                 let mut msg = json!({"jsonrpc": "2.0", "method": m, "params": params_for(m, uri)});
                 if m == "$/cancelRequest" && !s.requests.is_empty() && t.flag() {
                     // cancelling a request that was really sent (it may or may not be answered yet)
